@@ -135,8 +135,9 @@ def check(ctx: Ctx):
     ok = len(loops) == 1 and norm(loops[0].target) == "((val_p, my_offer_val), partner_local_gain)"
     tr = [norm(t) for n in ast.walk(fb.node) if isinstance(n, (ast.Assign, ast.Expr)) for t in ast.walk(n) if isinstance(t, ast.Tuple) and len(t.elts) == 3 and "partner" in norm(t)]
     ok = ok and bool(tr) and all(t == "(val_p, my_offer_val, partner)" for t in tr)
-    up = [c for c in ast.walk(fb.node) if isinstance(c, ast.Call) and norm(c.func) == "partial_asgt.update"]
-    ok = ok and len(up) == 1 and norm(up[0].args[0]) == "{partner: val_p, self.variable.name: my_offer_val}"
+    from ..mgmrules import offer_roles
+    roles_, up = offer_roles(fb)
+    ok = ok and len(up) == 1 and roles_ == {"val_p": "partner", "my_offer_val": "own"}
     ctx.check(ok, "R-CONTRACT", "MGM2 best-offer triple = (offerer value, own value, offerer)", fb, loops[0] if loops else fb.node,
               "the receiver reads an offer key as (offerer's value, its own value) and must keep that order in the triple and in the costed assignment")
     # (iii) receiver keeps slot 1 for itself and answers with slot 0
